@@ -127,4 +127,7 @@ func TestVerifReplay_DLQWindow(t *testing.T) {
 		}
 	}
 	t.Logf("driver: %d sequences, none disagrees with the reference window", n)
+	if sp := os.Getenv("VERIF_REPLAY_STATS"); sp != "" {
+		os.WriteFile(sp, []byte(fmt.Sprintf(`{"cases": %d}`, n)), 0o644)
+	}
 }
